@@ -197,3 +197,163 @@ func TestVerifC17MqttConc(t *testing.T) {
 		}
 	}
 }
+
+// TestVerifC17MqttGated executes schedules generated by TLC (MqttConnCap_Gen, PSpec) in which connection
+// attempts are parked between checkConnectPermission (the early check) and the registration under the
+// broker lock: the Connect (authentication) pipeline of the harness is a gate per connection. While an
+// attempt is parked other connections come, go and take ids over. Events are logged in the format of
+// MqttConnCap_Trace (inv when the CONNECT is sent, ret when the CONNACK is read, close / gone around the
+// end of a connection, a sample of len(Broker.clients) after every step); TLC looks for a linearisation.
+type c17Gate struct {
+	parked  chan struct{}
+	release chan struct{}
+}
+
+type c17GConn struct {
+	cl       *mqxClient
+	gate     *c17Gate
+	res      chan byte
+	done     bool // CONNACK read
+	accepted bool
+	ended    bool
+}
+
+func TestVerifC17MqttGated(t *testing.T) {
+	behs := vx.ReadBehaviours(t, "VERIF_IN")
+	w := vx.NewWriter(t, "VERIF_OUT")
+	defer w.Close()
+	for bi, beh := range behs {
+		if len(beh) < 2 {
+			continue
+		}
+		cap := vx.Int(beh[0]["cap"])
+		x, err := mqxNewBroker(mqxOpts{maxConn: cap, pipelines: []PacketType{Connect}})
+		if err != nil {
+			t.Fatalf("broker: %v", err)
+		}
+		var gmu sync.Mutex
+		gates := map[string]*c17Gate{}
+		x.mapper.hook = func(c mqxCall) string {
+			if c.Kind != string(Connect) {
+				return ""
+			}
+			gmu.Lock()
+			g := gates[c.User]
+			gmu.Unlock()
+			if g != nil {
+				close(g.parked)
+				select {
+				case <-g.release:
+				case <-time.After(90 * time.Second): // never leave a broker goroutine stuck for good
+				}
+			}
+			return ""
+		}
+		w.Emit(vx.M{"ev": "reset", "cap": cap, "round": bi})
+		conns := map[string]*c17GConn{}
+		fail := ""
+		finish := func(name string, code byte) {
+			c := conns[name]
+			c.done = true
+			c.accepted = code == 0
+			w.Emit(vx.M{"ev": "ret", "c": name, "code": int(code)})
+			if !c.accepted {
+				c.cl.Close()
+			}
+		}
+		for _, st := range beh[1:] {
+			name := vx.Str(st["c"])
+			switch vx.Str(st["a"]) {
+			case "start":
+				cl, err := mqxDial(x.addr, vx.Str(st["id"]))
+				if err != nil {
+					fail = err.Error()
+					break
+				}
+				cl.user = name
+				g := &c17Gate{parked: make(chan struct{}), release: make(chan struct{})}
+				gmu.Lock()
+				gates[name] = g
+				gmu.Unlock()
+				c := &c17GConn{cl: cl, gate: g, res: make(chan byte, 1)}
+				conns[name] = c
+				w.Emit(vx.M{"ev": "inv", "c": name, "id": vx.Str(st["id"])})
+				if err := cl.ConnectSend(false, ""); err != nil {
+					fail = err.Error()
+					break
+				}
+				go func() {
+					code, _ := cl.ConnectRecv(120 * time.Second)
+					c.res <- code
+				}()
+				select {
+				case <-g.parked: // in the Connect pipeline: past the early check, not yet registered
+				case code := <-c.res: // answered before it got there
+					if code == 255 {
+						fail = "no CONNACK"
+					} else {
+						finish(name, code)
+					}
+				case <-time.After(c17Wait):
+					fail = "attempt neither parked nor answered"
+				}
+			case "release":
+				c := conns[name]
+				if c == nil || c.done {
+					break
+				}
+				close(c.gate.release)
+				select {
+				case code := <-c.res:
+					if code == 255 {
+						fail = "no CONNACK after the gate was opened"
+					} else {
+						finish(name, code)
+					}
+				case <-time.After(c17Wait):
+					fail = "no CONNACK after the gate was opened"
+				}
+			case "end":
+				c := conns[name]
+				if c == nil || !c.accepted || c.ended {
+					break
+				}
+				c.ended = true
+				w.Emit(vx.M{"ev": "close", "c": name})
+				c.cl.HalfClose()
+				if !c.cl.WaitEOF(c17Wait) {
+					fail = "broker did not close a connection after its end"
+					break
+				}
+				w.Emit(vx.M{"ev": "gone", "c": name})
+				c.cl.Close()
+			}
+			if fail != "" {
+				break
+			}
+			w.Emit(vx.M{"ev": "sample", "n": x.NumClients()})
+		}
+		// every parked attempt runs to its CONNACK before the broker is closed (handleConn must not register a
+		// connection in a closed broker)
+		for _, c := range conns {
+			select {
+			case <-c.gate.release:
+			default:
+				close(c.gate.release)
+			}
+			if !c.done {
+				select {
+				case <-c.res:
+				case <-time.After(c17Wait):
+				}
+			}
+		}
+		for _, c := range conns {
+			c.cl.Close()
+		}
+		x.Close()
+		if fail != "" {
+			w.Emit(vx.M{"ev": "harness-failure", "what": fail, "round": bi})
+		}
+	}
+}
